@@ -4,6 +4,7 @@ import (
 	"context"
 	"encoding/json"
 	"errors"
+	"reflect"
 
 	"github.com/invopop/gobl/pkg/here"
 	"github.com/invopop/gobl/uuid"
@@ -213,7 +214,54 @@ func (d *Object) UnmarshalJSON(data []byte) error {
 	if err := json.Unmarshal(data, d.payload); err != nil {
 		return err
 	}
+	if err := checkNullElements(reflect.ValueOf(d.payload), 0); err != nil {
+		d.payload = nil
+		return err
+	}
 
+	return nil
+}
+
+// checkNullElements walks through the unmarshalled payload and ensures that
+// none of the arrays contain a null entry, as these would otherwise end up as
+// nil pointers that the rest of the library does not expect to deal with.
+func checkNullElements(v reflect.Value, depth int) error {
+	if depth > 64 {
+		return nil
+	}
+	switch v.Kind() {
+	case reflect.Ptr, reflect.Interface:
+		if v.IsNil() {
+			return nil
+		}
+		return checkNullElements(v.Elem(), depth+1)
+	case reflect.Struct:
+		for i := 0; i < v.NumField(); i++ {
+			if !v.Type().Field(i).IsExported() {
+				continue
+			}
+			if err := checkNullElements(v.Field(i), depth+1); err != nil {
+				return err
+			}
+		}
+	case reflect.Slice, reflect.Array:
+		for i := 0; i < v.Len(); i++ {
+			e := v.Index(i)
+			if (e.Kind() == reflect.Ptr || e.Kind() == reflect.Interface) && e.IsNil() {
+				return errors.New("null values are not supported inside arrays")
+			}
+			if err := checkNullElements(e, depth+1); err != nil {
+				return err
+			}
+		}
+	case reflect.Map:
+		iter := v.MapRange()
+		for iter.Next() {
+			if err := checkNullElements(iter.Value(), depth+1); err != nil {
+				return err
+			}
+		}
+	}
 	return nil
 }
 
